@@ -79,7 +79,6 @@ fn setup(bpb: &BiosParameterBlock, dev: &mut NdDev) {
         G_MAX = bpb.total_clusters() + 2;
     }
     dev.small_read_ok = Some(fat_read_ok);
-    dev.nofill = true;
     unsafe {
         dev.track_lo = G_FAT_BEGIN;
         dev.track_hi = G_FAT_END;
@@ -112,6 +111,8 @@ pub(crate) fn any_file_state(max: u32, has_entry: bool, is_dir: bool) -> FileSta
         let mut d = any_sfn_data();
         if is_dir {
             kani::assume(d.is_dir());
+            // directories have no size field; the specification limits them to 65536 entries (2 MiB)
+            kani::assume(offset <= 0x0020_0000);
         } else {
             kani::assume(!d.is_dir());
             kani::assume(offset <= d.size().unwrap());
@@ -119,6 +120,7 @@ pub(crate) fn any_file_state(max: u32, has_entry: bool, is_dir: bool) -> FileSta
         }
         Some(d)
     } else {
+        kani::assume(offset <= 0x0020_0000);
         None
     };
     FileState { first, current, offset, data, pos: kani::any(), dirty: kani::any() }
@@ -134,14 +136,10 @@ fn mk_file<'a>(fs: &'a Fs, st: &FileState) -> File<'a, NdDev, SymTime, LossyOemC
     }
 }
 
-fn fake_buf<'a>(backing: &'a mut [u8; 8], len: usize) -> &'a mut [u8] {
-    // A slice header with a fully symbolic length: the device (nofill mode) never dereferences large
-    // buffers, so only the length arithmetic of the code under proof is exercised, for EVERY length.
-    if len <= 8 {
-        &mut backing[..len]
-    } else {
-        unsafe { core::slice::from_raw_parts_mut(backing.as_mut_ptr(), len) }
-    }
+const BUFN: usize = 8;
+
+fn fake_buf<'a>(backing: &'a mut [u8; BUFN], len: usize) -> &'a mut [u8] {
+    &mut backing[..len]
 }
 
 fn addr(bpb: &BiosParameterBlock, c: u32, off_in: u32) -> u64 {
@@ -154,13 +152,13 @@ fn read_contract(bpb: BiosParameterBlock, is_dir: bool, has_entry: bool) {
     let mut dev = NdDev::read_only();
     setup(&bpb, &mut dev);
     let update_acc: bool = kani::any();
-    let tp = SymTime::any();
+    let tp = SymTime::fixed();
     let fs = mk_fs_plain(dev, bpb.clone(), FsStatusFlags::decode(0), opts(update_acc, tp));
     let st = any_file_state(max, has_entry, is_dir);
     let mut f = mk_file(&fs, &st);
     let mut backing = [0u8; 8];
     let len: usize = kani::any();
-    kani::assume(len <= isize::MAX as usize);
+    kani::assume(len <= BUFN);
     let buf = fake_buf(&mut backing, len);
     let r = f.read(buf);
     assert!(r.is_ok());
@@ -221,15 +219,14 @@ fn read_contract(bpb: BiosParameterBlock, is_dir: bool, has_entry: bool) {
     kani::cover!(n > 0 && off_in == 0 && st.current.is_some());
     kani::cover!(n > 0 && off_in != 0 && (n as u64) < len as u64);
     kani::cover!(n == 0 && len > 0);
-    kani::cover!(len > 100000 && n > 8);
     core::mem::forget(f);
     core::mem::forget(fs);
 }
 
 // @obl props=C02,C08,C11,C13,C18 tier=quick fns=File::read,File::bytes_left_in_file,FileSystem::cluster_iter,ClusterIterator::next,FileSystem::offset_from_cluster
-// @desc FAT12 fixture (512-byte clusters), regular file, from ANY inv_file state, EVERY buffer length, every device content with valid cluster pointers, write-forbidden device: read returns Ok(n), n <= min(len, bytes left in cluster, bytes left in file); n > 0 => exactly one data read of that many bytes at (first_data + (c-2)*spc)*bps + offset%cs where c is the current cluster or, at a cluster boundary, the successor the table returned; offset += n, current = c; n = 0 leaves the cursor; never writes; access date only with the option on; other stamps, size untouched; inv_file preserved
+// @desc FAT12 fixture (512-byte clusters), regular file, from ANY inv_file state, every buffer length up to 8 bytes (the cursor is fully symbolic, so each clamp - end of cluster, end of file, 4 GiB limit - is exercised on both sides), every device content with valid cluster pointers, write-forbidden device: read returns Ok(n), n <= min(len, bytes left in cluster, bytes left in file); n > 0 => exactly one data read of that many bytes at (first_data + (c-2)*spc)*bps + offset%cs where c is the current cluster or, at a cluster boundary, the successor the table returned; offset += n, current = c; n = 0 leaves the cursor; never writes; access date only with the option on; other stamps, size untouched; inv_file preserved
 #[kani::proof]
-#[kani::unwind(6)]
+#[kani::unwind(10)]
 fn read_contract_fat12() {
     read_contract(bpb_fat12(), false, true);
 }
@@ -237,7 +234,7 @@ fn read_contract_fat12() {
 // @obl props=C02,C08,C11,C13,C18 tier=quick fns=File::read,File::bytes_left_in_file,FileSystem::cluster_iter,ClusterIterator::next,FileSystem::offset_from_cluster
 // @desc FAT16 fixture (2048-byte clusters), regular file: contract of read_contract_fat12
 #[kani::proof]
-#[kani::unwind(6)]
+#[kani::unwind(10)]
 fn read_contract_fat16() {
     read_contract(bpb_fat16(), false, true);
 }
@@ -245,7 +242,7 @@ fn read_contract_fat16() {
 // @obl props=C02,C08,C11,C13,C18,C20 tier=quick fns=File::read,File::bytes_left_in_file,FileSystem::cluster_iter,ClusterIterator::next,FileSystem::offset_from_cluster
 // @desc FAT32 fixture (4096-byte clusters), regular file: contract of read_contract_fat12
 #[kani::proof]
-#[kani::unwind(6)]
+#[kani::unwind(10)]
 fn read_contract_fat32() {
     read_contract(bpb_fat32(), false, true);
 }
@@ -253,7 +250,7 @@ fn read_contract_fat32() {
 // @obl props=C02,C11,C13,C20 tier=quick fns=File::read,FileSystem::offset_from_cluster
 // @desc 2^32-1 sectors x 4096 bytes, 64 KiB clusters (addresses above 2^43): contract of read_contract_fat12, exact 64-bit device offsets for every cluster including the last
 #[kani::proof]
-#[kani::unwind(6)]
+#[kani::unwind(10)]
 fn read_contract_huge() {
     read_contract(bpb_fat32_huge(), false, true);
 }
@@ -261,25 +258,34 @@ fn read_contract_huge() {
 // @obl props=C02,C13,C17 tier=quick fns=File::read
 // @desc FAT32 fixture, directory stream (no size field, with or without entry = root): reads are limited by the cluster only and end when the chain ends; same address contract; never writes
 #[kani::proof]
-#[kani::unwind(6)]
+#[kani::unwind(10)]
 fn read_contract_dir() {
     read_contract(bpb_fat32(), true, kani::any());
 }
 
-fn write_contract(bpb: BiosParameterBlock, is_dir: bool) {
+/// case 0: cursor inside a cluster; 1: at a cluster boundary with a current cluster (successor from the table or
+/// allocation); 2: cursor at 0 (first cluster or first allocation)
+fn write_contract(bpb: BiosParameterBlock, is_dir: bool, case: u8) {
     let cs = bpb.cluster_size();
     let total = bpb.total_clusters();
     let max = total + 2;
     let mut dev = NdDev::new();
     setup(&bpb, &mut dev);
-    let tp = SymTime::any();
+    // fixed provider value here (2021-07-09 13:47:33.987); the stamping arithmetic for EVERY provider value is
+    // the separate obligation stamp_after_write
+    let tp = SymTime::fixed();
     let was_dirty: bool = kani::any();
     let fs = mk_fs_plain(dev, bpb.clone(), FsStatusFlags { dirty: was_dirty, io_error: false }, opts(false, tp));
     let st = any_file_state(max, true, is_dir);
+    match case {
+        0 => kani::assume(st.offset % cs != 0),
+        1 => kani::assume(st.offset % cs == 0 && st.current.is_some()),
+        _ => kani::assume(st.current.is_none()),
+    }
     let mut f = mk_file(&fs, &st);
     let mut backing = [0u8; 8];
     let len: usize = kani::any();
-    kani::assume(len <= isize::MAX as usize);
+    kani::assume(len <= BUFN);
     let buf = fake_buf(&mut backing, len);
     let r = f.write(buf);
     let off_in = st.offset % cs;
@@ -343,9 +349,7 @@ fn write_contract(bpb: BiosParameterBlock, is_dir: bool) {
                 }
             }
             assert!(f.current_cluster.is_none() == (f.offset == 0));
-            kani::cover!(n > 0 && st.first.is_none());
-            kani::cover!(n > 0 && off_in == 0 && st.current.is_some());
-            kani::cover!(n > 0 && (n as u64) < len as u64);
+            kani::cover!(n > 0);
         }
         Err(e) => {
             // no faults injected: the only error is the allocator's
@@ -353,54 +357,164 @@ fn write_contract(bpb: BiosParameterBlock, is_dir: bool) {
             assert!(f.offset == st.offset && f.current_cluster == st.current && f.first_cluster == st.first);
         }
     }
-    kani::cover!(r_is_err);
+    kani::cover!(r_is_err || case == 0);
     core::mem::forget(f);
     core::mem::forget(fs);
 }
 
-// @obl props=C02,C03,C11,C12,C14,C18 tier=quick fns=File::write,File::update_dir_entry_after_write,File::set_first_cluster,FileSystem::alloc_cluster,FileSystem::set_dirty_flag
-// @desc FAT12 fixture, regular file, ANY inv_file state, EVERY buffer length, table::alloc_cluster replaced by its contract: n <= min(len, bytes left in cluster, 2^32-1 - offset); the dirty bit is set (and written if it was clear) before anything else; exactly one data write of min(..) bytes at the address of byte `offset` in the file's current cluster / its successor / the first cluster / a freshly allocated cluster - written straight to the device (no buffering); offset += n; size = max(size, offset); first_cluster set on first allocation; modified := provider time (2 s), created/accessed untouched; NotEnoughSpace leaves the cursor alone
+// @obl props=C02,C03,C11,C12,C14,C18 tier=quick fns=File::write,File::update_dir_entry_after_write,File::set_first_cluster,FileSystem::alloc_cluster,FileSystem::set_dirty_flag timeout=900
+// @bound bounded: buffer length <= 8 (cursor, sizes, cluster numbers and device content fully symbolic)
+// @desc FAT12 fixture, regular file, ANY inv_file state with the cursor inside a cluster, every buffer length up to 8, table::alloc_cluster replaced by its contract: n <= min(len, bytes left in cluster, 2^32-1 - offset); the dirty bit is set (and written if it was clear) before anything else; exactly one data write of min(..) bytes at the address of byte `offset` in the file's current cluster / its successor / the first cluster / a freshly allocated cluster - written straight to the device (no buffering); offset += n; size = max(size, offset); first_cluster set on first allocation; modified := provider time (2 s), created/accessed untouched; NotEnoughSpace leaves the cursor alone
 #[kani::proof]
 #[kani::unwind(12)]
 #[kani::stub(crate::table::alloc_cluster, stub_alloc_cluster)]
-fn write_contract_fat12() {
-    write_contract(bpb_fat12(), false);
+fn write_contract_fat12_c0() {
+    write_contract(bpb_fat12(), false, 0);
 }
 
-// @obl props=C02,C03,C11,C12,C14,C18 tier=quick fns=File::write,File::update_dir_entry_after_write,File::set_first_cluster,FileSystem::alloc_cluster,FileSystem::set_dirty_flag
-// @desc FAT16 fixture, regular file: contract of write_contract_fat12
+// @obl props=C02,C03,C11,C12,C14,C18 tier=quick fns=File::write,File::update_dir_entry_after_write,File::set_first_cluster,FileSystem::alloc_cluster,FileSystem::set_dirty_flag timeout=900
+// @bound bounded: buffer length <= 8 (cursor, sizes, cluster numbers and device content fully symbolic)
+// @desc FAT12 fixture, regular file, ANY inv_file state with the cursor on a cluster boundary, every buffer length up to 8, table::alloc_cluster replaced by its contract: n <= min(len, bytes left in cluster, 2^32-1 - offset); the dirty bit is set (and written if it was clear) before anything else; exactly one data write of min(..) bytes at the address of byte `offset` in the file's current cluster / its successor / the first cluster / a freshly allocated cluster - written straight to the device (no buffering); offset += n; size = max(size, offset); first_cluster set on first allocation; modified := provider time (2 s), created/accessed untouched; NotEnoughSpace leaves the cursor alone
 #[kani::proof]
 #[kani::unwind(12)]
 #[kani::stub(crate::table::alloc_cluster, stub_alloc_cluster)]
-fn write_contract_fat16() {
-    write_contract(bpb_fat16(), false);
+fn write_contract_fat12_c1() {
+    write_contract(bpb_fat12(), false, 1);
 }
 
-// @obl props=C02,C03,C11,C12,C14,C18,C20 tier=quick fns=File::write,File::update_dir_entry_after_write,File::set_first_cluster,FileSystem::alloc_cluster,FileSystem::set_dirty_flag
-// @desc FAT32 fixture, regular file: contract of write_contract_fat12
+// @obl props=C02,C03,C11,C12,C14,C18 tier=quick fns=File::write,File::update_dir_entry_after_write,File::set_first_cluster,FileSystem::alloc_cluster,FileSystem::set_dirty_flag timeout=900
+// @bound bounded: buffer length <= 8 (cursor, sizes, cluster numbers and device content fully symbolic)
+// @desc FAT12 fixture, regular file, ANY inv_file state with the cursor at 0, every buffer length up to 8, table::alloc_cluster replaced by its contract: n <= min(len, bytes left in cluster, 2^32-1 - offset); the dirty bit is set (and written if it was clear) before anything else; exactly one data write of min(..) bytes at the address of byte `offset` in the file's current cluster / its successor / the first cluster / a freshly allocated cluster - written straight to the device (no buffering); offset += n; size = max(size, offset); first_cluster set on first allocation; modified := provider time (2 s), created/accessed untouched; NotEnoughSpace leaves the cursor alone
 #[kani::proof]
 #[kani::unwind(12)]
 #[kani::stub(crate::table::alloc_cluster, stub_alloc_cluster)]
-fn write_contract_fat32() {
-    write_contract(bpb_fat32(), false);
+fn write_contract_fat12_c2() {
+    write_contract(bpb_fat12(), false, 2);
 }
 
-// @obl props=C02,C11,C20 tier=quick fns=File::write,FileSystem::offset_from_cluster
-// @desc 2^32-1 sectors x 4096 bytes, 64 KiB clusters: contract of write_contract_fat12 with exact 64-bit addresses up to the last cluster
+// @obl props=C02,C03,C11,C12,C14,C18 tier=quick fns=File::write,File::update_dir_entry_after_write,File::set_first_cluster,FileSystem::alloc_cluster,FileSystem::set_dirty_flag timeout=900
+// @bound bounded: buffer length <= 8 (cursor, sizes, cluster numbers and device content fully symbolic)
+// @desc FAT16 fixture, regular file, ANY inv_file state with the cursor inside a cluster, every buffer length up to 8, table::alloc_cluster replaced by its contract: n <= min(len, bytes left in cluster, 2^32-1 - offset); the dirty bit is set (and written if it was clear) before anything else; exactly one data write of min(..) bytes at the address of byte `offset` in the file's current cluster / its successor / the first cluster / a freshly allocated cluster - written straight to the device (no buffering); offset += n; size = max(size, offset); first_cluster set on first allocation; modified := provider time (2 s), created/accessed untouched; NotEnoughSpace leaves the cursor alone
 #[kani::proof]
 #[kani::unwind(12)]
 #[kani::stub(crate::table::alloc_cluster, stub_alloc_cluster)]
-fn write_contract_huge() {
-    write_contract(bpb_fat32_huge(), false);
+fn write_contract_fat16_c0() {
+    write_contract(bpb_fat16(), false, 0);
 }
 
-// @obl props=C02,C03,C11 tier=quick fns=File::write,FileSystem::alloc_cluster,write_zeros
-// @desc FAT32 fixture, directory stream: as write_contract_fat12; a cluster allocated for a directory is zeroed before use (cluster_size zero bytes at its address)
+// @obl props=C02,C03,C11,C12,C14,C18 tier=quick fns=File::write,File::update_dir_entry_after_write,File::set_first_cluster,FileSystem::alloc_cluster,FileSystem::set_dirty_flag timeout=900
+// @bound bounded: buffer length <= 8 (cursor, sizes, cluster numbers and device content fully symbolic)
+// @desc FAT16 fixture, regular file, ANY inv_file state with the cursor on a cluster boundary, every buffer length up to 8, table::alloc_cluster replaced by its contract: n <= min(len, bytes left in cluster, 2^32-1 - offset); the dirty bit is set (and written if it was clear) before anything else; exactly one data write of min(..) bytes at the address of byte `offset` in the file's current cluster / its successor / the first cluster / a freshly allocated cluster - written straight to the device (no buffering); offset += n; size = max(size, offset); first_cluster set on first allocation; modified := provider time (2 s), created/accessed untouched; NotEnoughSpace leaves the cursor alone
 #[kani::proof]
 #[kani::unwind(12)]
 #[kani::stub(crate::table::alloc_cluster, stub_alloc_cluster)]
-fn write_contract_dir() {
-    write_contract(bpb_fat32(), true);
+fn write_contract_fat16_c1() {
+    write_contract(bpb_fat16(), false, 1);
+}
+
+// @obl props=C02,C03,C11,C12,C14,C18 tier=quick fns=File::write,File::update_dir_entry_after_write,File::set_first_cluster,FileSystem::alloc_cluster,FileSystem::set_dirty_flag timeout=900
+// @bound bounded: buffer length <= 8 (cursor, sizes, cluster numbers and device content fully symbolic)
+// @desc FAT16 fixture, regular file, ANY inv_file state with the cursor at 0, every buffer length up to 8, table::alloc_cluster replaced by its contract: n <= min(len, bytes left in cluster, 2^32-1 - offset); the dirty bit is set (and written if it was clear) before anything else; exactly one data write of min(..) bytes at the address of byte `offset` in the file's current cluster / its successor / the first cluster / a freshly allocated cluster - written straight to the device (no buffering); offset += n; size = max(size, offset); first_cluster set on first allocation; modified := provider time (2 s), created/accessed untouched; NotEnoughSpace leaves the cursor alone
+#[kani::proof]
+#[kani::unwind(12)]
+#[kani::stub(crate::table::alloc_cluster, stub_alloc_cluster)]
+fn write_contract_fat16_c2() {
+    write_contract(bpb_fat16(), false, 2);
+}
+
+// @obl props=C02,C03,C11,C12,C14,C18,C20 tier=quick fns=File::write,File::update_dir_entry_after_write,File::set_first_cluster,FileSystem::alloc_cluster,FileSystem::set_dirty_flag timeout=900
+// @bound bounded: buffer length <= 8 (cursor, sizes, cluster numbers and device content fully symbolic)
+// @desc FAT32 fixture, regular file, ANY inv_file state with the cursor inside a cluster, every buffer length up to 8, table::alloc_cluster replaced by its contract: n <= min(len, bytes left in cluster, 2^32-1 - offset); the dirty bit is set (and written if it was clear) before anything else; exactly one data write of min(..) bytes at the address of byte `offset` in the file's current cluster / its successor / the first cluster / a freshly allocated cluster - written straight to the device (no buffering); offset += n; size = max(size, offset); first_cluster set on first allocation; modified := provider time (2 s), created/accessed untouched; NotEnoughSpace leaves the cursor alone
+#[kani::proof]
+#[kani::unwind(12)]
+#[kani::stub(crate::table::alloc_cluster, stub_alloc_cluster)]
+fn write_contract_fat32_c0() {
+    write_contract(bpb_fat32(), false, 0);
+}
+
+// @obl props=C02,C03,C11,C12,C14,C18,C20 tier=quick fns=File::write,File::update_dir_entry_after_write,File::set_first_cluster,FileSystem::alloc_cluster,FileSystem::set_dirty_flag timeout=900
+// @bound bounded: buffer length <= 8 (cursor, sizes, cluster numbers and device content fully symbolic)
+// @desc FAT32 fixture, regular file, ANY inv_file state with the cursor on a cluster boundary, every buffer length up to 8, table::alloc_cluster replaced by its contract: n <= min(len, bytes left in cluster, 2^32-1 - offset); the dirty bit is set (and written if it was clear) before anything else; exactly one data write of min(..) bytes at the address of byte `offset` in the file's current cluster / its successor / the first cluster / a freshly allocated cluster - written straight to the device (no buffering); offset += n; size = max(size, offset); first_cluster set on first allocation; modified := provider time (2 s), created/accessed untouched; NotEnoughSpace leaves the cursor alone
+#[kani::proof]
+#[kani::unwind(12)]
+#[kani::stub(crate::table::alloc_cluster, stub_alloc_cluster)]
+fn write_contract_fat32_c1() {
+    write_contract(bpb_fat32(), false, 1);
+}
+
+// @obl props=C02,C03,C11,C12,C14,C18,C20 tier=quick fns=File::write,File::update_dir_entry_after_write,File::set_first_cluster,FileSystem::alloc_cluster,FileSystem::set_dirty_flag timeout=900
+// @bound bounded: buffer length <= 8 (cursor, sizes, cluster numbers and device content fully symbolic)
+// @desc FAT32 fixture, regular file, ANY inv_file state with the cursor at 0, every buffer length up to 8, table::alloc_cluster replaced by its contract: n <= min(len, bytes left in cluster, 2^32-1 - offset); the dirty bit is set (and written if it was clear) before anything else; exactly one data write of min(..) bytes at the address of byte `offset` in the file's current cluster / its successor / the first cluster / a freshly allocated cluster - written straight to the device (no buffering); offset += n; size = max(size, offset); first_cluster set on first allocation; modified := provider time (2 s), created/accessed untouched; NotEnoughSpace leaves the cursor alone
+#[kani::proof]
+#[kani::unwind(12)]
+#[kani::stub(crate::table::alloc_cluster, stub_alloc_cluster)]
+fn write_contract_fat32_c2() {
+    write_contract(bpb_fat32(), false, 2);
+}
+
+// @obl props=C02,C11,C20 tier=quick fns=File::write,FileSystem::offset_from_cluster timeout=900
+// @bound bounded: buffer length <= 8
+// @desc 2^32-1 sectors x 4096 bytes, 64 KiB clusters with the cursor inside a cluster: contract of write_contract_fat12_c* with exact 64-bit addresses up to the last cluster
+#[kani::proof]
+#[kani::unwind(12)]
+#[kani::stub(crate::table::alloc_cluster, stub_alloc_cluster)]
+fn write_contract_huge_c0() {
+    write_contract(bpb_fat32_huge(), false, 0);
+}
+
+// @obl props=C02,C11,C20 tier=quick fns=File::write,FileSystem::offset_from_cluster timeout=900
+// @bound bounded: buffer length <= 8
+// @desc 2^32-1 sectors x 4096 bytes, 64 KiB clusters with the cursor on a cluster boundary: contract of write_contract_fat12_c* with exact 64-bit addresses up to the last cluster
+#[kani::proof]
+#[kani::unwind(12)]
+#[kani::stub(crate::table::alloc_cluster, stub_alloc_cluster)]
+fn write_contract_huge_c1() {
+    write_contract(bpb_fat32_huge(), false, 1);
+}
+
+// @obl props=C02,C03,C11 tier=quick fns=File::write,FileSystem::alloc_cluster,write_zeros timeout=900
+// @bound bounded: buffer length <= 8
+// @desc FAT32 fixture, directory stream on a cluster boundary: as write_contract_fat12_c1; a cluster allocated for a directory is zeroed before use
+#[kani::proof]
+#[kani::unwind(12)]
+#[kani::stub(crate::table::alloc_cluster, stub_alloc_cluster)]
+fn write_contract_dir_c1() {
+    write_contract(bpb_fat32(), true, 1);
+}
+
+// @obl props=C02,C18 tier=quick fns=File::update_dir_entry_after_write,DirEntryEditor::set_modified,DirEntryEditor::set_size
+// @desc for EVERY provider DateTime and every file state: after a successful write the entry's modification stamp is the provider's value at 2 s resolution, size becomes max(size, offset) for files (directories have none), created / accessed / name / attributes / first cluster are untouched, and the entry is marked dirty whenever anything changed
+#[kani::proof]
+#[kani::unwind(4)]
+fn stamp_after_write() {
+    let bpb = bpb_fat16();
+    let max = bpb.total_clusters() + 2;
+    let tp = SymTime::any();
+    let fs = mk_fs_plain(NdDev::read_only(), bpb.clone(), FsStatusFlags::decode(0), opts(false, tp));
+    let mut st = any_file_state(max, true, kani::any());
+    // `offset` is the cursor AFTER the write; it may exceed the recorded size
+    st.offset = kani::any();
+    let mut f = mk_file(&fs, &st);
+    f.update_dir_entry_after_write();
+    let e = f.entry.as_ref().unwrap();
+    let d0 = st.data.as_ref().unwrap();
+    let m = d_modified(ed_data(e));
+    assert!(m.date == tp.dt.date && m.time.hour == tp.dt.time.hour && m.time.min == tp.dt.time.min);
+    assert!(m.time.sec == tp.dt.time.sec - tp.dt.time.sec % 2 && m.time.millis == 0);
+    assert!(d_created(ed_data(e)) == d_created(d0) && d_accessed(ed_data(e)) == d_accessed(d0));
+    match d0.size() {
+        Some(s0) => assert!(ed_data(e).size() == Some(s0.max(st.offset))),
+        None => assert!(ed_data(e).size().is_none()),
+    }
+    assert!(ed_data(e).first_cluster(FatType::Fat16) == d0.first_cluster(FatType::Fat16));
+    assert!(ed_pos(e) == st.pos);
+    if !st.dirty && !ed_dirty(e) {
+        assert!(crate::dir_entry::verif_kani::sfn_eq(ed_data(e), d0));
+    }
+    assert!(fs.disk.borrow().nlog == 0);
+    kani::cover!(d0.size().is_some() && st.offset > d0.size().unwrap());
+    core::mem::forget(f);
+    core::mem::forget(fs);
 }
 
 fn seek_arith(bpb: BiosParameterBlock) {
@@ -461,6 +575,17 @@ fn seek_arith(bpb: BiosParameterBlock) {
         if got != 0 && same_cluster_index && got == want {
             assert!(f.current_cluster == st.current);
         }
+        // the chain is walked from the first cluster by exactly ceil(new/cs) - 1 links (the cluster HOLDING byte
+        // new-1: at an exact cluster boundary that is the previous cluster), one table read per link
+        if got != st.offset as u64 && got != 0 && !same_cluster_index && st.first.is_some() {
+            let k = (got + cs as u64 - 1) / cs as u64;
+            let reads = fs.disk.borrow().nreads as u64;
+            if got == want {
+                assert!(reads == k - 1);
+            } else {
+                assert!(reads == k);
+            }
+        }
     }
     assert!(f.first_cluster == st.first);
     assert!(fs.disk.borrow().nwrites == 0);
@@ -474,16 +599,16 @@ fn seek_arith(bpb: BiosParameterBlock) {
     core::mem::forget(fs);
 }
 
-// @obl props=C02,C09,C13 tier=quick fns=File::seek,FileSystem::clusters_from_bytes,FileSystem::bytes_from_clusters
+// @obl props=C02,C09,C13 tier=quick fns=File::seek,FileSystem::clusters_from_bytes,FileSystem::bytes_from_clusters timeout=900
 // @bound bounded: target position within the first 4 clusters (chain walk of at most 3 steps); the offset arithmetic is over ALL u64/i64 seek arguments
-// @desc FAT16 fixture, any inv_file state, every SeekFrom: no overflow or panic; a target before the start (or not representable) is Err(InvalidInput) with the cursor unchanged; a target beyond the end clamps to the size; the result equals the new offset; current cluster None iff offset 0, otherwise a valid cluster; staying within the same cluster keeps the current cluster; a chain shorter than the target clamps to the end of the chain; never writes, never touches the entry
+// @desc FAT16 fixture, any inv_file state, every SeekFrom: no overflow or panic; a target before the start (or not representable) is Err(InvalidInput) with the cursor unchanged; a target beyond the end clamps to the size; the result equals the new offset; current cluster None iff offset 0, otherwise a valid cluster; staying within the same cluster keeps the current cluster; otherwise exactly ceil(new/cs)-1 chain links are followed from the first cluster (at an exact cluster boundary the cursor stays on the previous cluster); a chain shorter than the target clamps to the end of the chain; never writes, never touches the entry
 #[kani::proof]
 #[kani::unwind(6)]
 fn seek_contract_fat16() {
     seek_arith(bpb_fat16());
 }
 
-// @obl props=C02,C09,C13,C20 tier=quick fns=File::seek,FileSystem::clusters_from_bytes,FileSystem::bytes_from_clusters
+// @obl props=C02,C09,C13,C20 tier=quick fns=File::seek,FileSystem::clusters_from_bytes,FileSystem::bytes_from_clusters timeout=900
 // @bound bounded: target position within the first 4 clusters
 // @desc FAT32 fixture: contract of seek_contract_fat16
 #[kani::proof]
@@ -556,7 +681,7 @@ fn file_ops_faults() {
     let mut f = mk_file(&fs, &st);
     let mut backing = [0u8; 8];
     let len: usize = kani::any();
-    kani::assume(len <= 100000);
+    kani::assume(len <= BUFN);
     let op: u8 = kani::any();
     let res: Result<(), Error<DevErr>> = match op % 4 {
         0 => f.read(fake_buf(&mut backing, len)).map(|_| ()),
